@@ -10,6 +10,8 @@ type chunkedReader struct {
 	inner         io.Reader
 	chunkRemain   int
 	notFirstChunk bool
+	lastChunkSize int  // size field of the chunk header read last
+	complete      bool // the terminating zero-size chunk has been read to its end
 }
 
 func newChunkedReader(inner io.Reader) *chunkedReader {
@@ -20,7 +22,18 @@ func newChunkedReader(inner io.Reader) *chunkedReader {
 	}
 }
 
+// Read decodes the aws-chunked stream. The stream ends properly only after its
+// terminating zero-size chunk; when the inner stream ends before that chunk has
+// been read to its end, the body is incomplete.
 func (r *chunkedReader) Read(p []byte) (n int, err error) {
+	n, err = r.read(p)
+	if err == io.EOF && !r.complete {
+		err = ErrIncompleteBody
+	}
+	return n, err
+}
+
+func (r *chunkedReader) read(p []byte) (n int, err error) {
 	sizeToRead := len(p)
 	for sizeToRead > 0 {
 		if r.chunkRemain > sizeToRead {
@@ -54,6 +67,8 @@ func (r *chunkedReader) Read(p []byte) (n int, err error) {
 				if err != nil {
 					return n, err
 				}
+				// after the "\r\n" of a zero-size chunk nothing more is expected
+				r.complete = r.lastChunkSize == 0
 			}
 			// read next chunk header
 			chunkSize := 0
@@ -62,6 +77,8 @@ func (r *chunkedReader) Read(p []byte) (n int, err error) {
 				return n, err
 			}
 			r.chunkRemain = chunkSize
+			r.lastChunkSize = chunkSize
+			r.complete = false
 			_, err = io.CopyN(ioutil.Discard, r.inner, 16+64+2) // "chunk-signature=" + sizeOfHash + "\r\n"
 			if err != nil {
 				return n, err
